@@ -215,7 +215,7 @@ fn c07_split_call() {
 
 /// C07: halves handed out by the public constructors start at (raw session key, 0, 0).
 #[kani::proof]
-#[kani::unwind(130)]
+#[kani::unwind(80)]
 #[kani::stub(core::str::from_utf8, verif_oracle::from_utf8_model)]
 fn c07_init() {
     let key: [u8; KL] = kani::any();
@@ -779,7 +779,7 @@ fn p20_eq(a: &[u8; 20], b: &[u8; 20]) -> bool {
 /// C06: the client's proof is SHA-1(name | 0u32 | own seed LE | server seed LE | session key); the seed
 /// accessor returns the 4-byte draw and that value is the one used.
 #[kani::proof]
-#[kani::unwind(130)]
+#[kani::unwind(80)]
 #[kani::stub(core::str::from_utf8, verif_oracle::from_utf8_model)]
 fn c06_vanilla_client_msg() {
     let name = crate::normalized_string::verif_h::any_name(16);
@@ -800,7 +800,7 @@ fn c06_vanilla_client_msg() {
 
 /// C06: the server hands out header crypto exactly when the presented proof equals the value for its own seed.
 #[kani::proof]
-#[kani::unwind(130)]
+#[kani::unwind(80)]
 #[kani::stub(core::str::from_utf8, verif_oracle::from_utf8_model)]
 fn c06_vanilla_server_decision() {
     let name = crate::normalized_string::verif_h::any_name(16);
